@@ -330,7 +330,7 @@ impl<T: Engine> Block for FftFilter<T> {
 /// therefore, this Float version of the FftFilter has a little worse
 /// performance than the Complex filter.
 #[derive(rustradio_macros::Block)]
-#[rustradio(crate)]
+#[rustradio(crate, noeof)]
 pub struct FftFilterFloat<T: Engine> {
     complex: FftFilter<T>,
     #[rustradio(in)]
@@ -386,6 +386,29 @@ impl<T: Engine> FftFilterFloat<T> {
             },
             dr,
         )
+    }
+}
+
+impl<T: Engine> crate::block::BlockEOF for FftFilterFloat<T> {
+    fn eof(&mut self) -> bool {
+        if !self.src.eof() {
+            return false;
+        }
+        if crate::stream::StreamWait::closed(&self.dst) {
+            // Nobody left to deliver to.
+            return true;
+        }
+        // The input is done, but samples may still be on their way through
+        // the wrapped filter: not yet taken from the inner input stream, or
+        // filtered and waiting for room in the output stream.
+        let pending_out = self.inner_out.read_buf().map(|(b, _)| b.len()).unwrap_or(0);
+        let pending_in = self
+            .complex
+            .src
+            .read_buf()
+            .map(|(b, _)| b.len())
+            .unwrap_or(0);
+        pending_out == 0 && self.complex.buf.len() + pending_in < self.complex.nsamples
     }
 }
 
